@@ -124,6 +124,10 @@ def run_schema(ctx, idx, config="tl2all", values=25, fills=25, mutations=4, labe
                         cid = len(cases)
                         cases.append({"id": cid, "op": "T2", "decl": d, "data": data, "want": want2, "negzero": rc.saw_negative_zero})
                         lines.append("T2 %d %s 1 %s" % (cid, d.constructors[0].lname if d.kind in ("struct", "typedef") else d.uname, data.hex()))
+                    if want2 is not None and tl2 and not rc.saw_negative_zero:
+                        cid = len(cases)
+                        cases.append({"id": cid, "op": "R2", "decl": d, "data": want2, "want": want2, "canonical": True})
+                        lines.append("R2 %d %s %s" % (cid, d.constructors[0].lname if d.kind in ("struct", "typedef") else d.uname, want2.hex() or "-"))
                     if want2 is not None and tl2alt and not rc.saw_negative_zero:
                         # equal but non-canonical TL2 encodings of the same value: empty fields given explicitly, explicit zero masks, empty objects as 01 00 / 9-byte zero
                         for ai in range(3):
@@ -178,6 +182,15 @@ def run_schema(ctx, idx, config="tl2all", values=25, fills=25, mutations=4, labe
             continue  # this caller decides only some of the observations (the others belong to C11)
         if c["op"] == "R2":
             if ev.get("notl2") or ev.get("panic"):
+                continue
+            if c.get("canonical"):
+                cnt["tl2_reference_bytes_read"] = cnt.get("tl2_reference_bytes_read", 0) + 1
+                if not ev.get("ok"):
+                    viol("tl2-reference-bytes-rejected", c, "generated TL2 reader rejects the reference TL2 encoding of a value: %s; bytes %s" % (ev.get("err"), c["want"].hex()[:300]))
+                elif ev.get("rest") != 3 or ev["tl2"] != c["want"].hex():
+                    viol("tl2-reference-bytes-read-differently", c, "generated TL2 reader leaves %s bytes (3 expected) of the reference TL2 encoding or rewrites it differently: %s vs %s" % (ev.get("rest"), ev.get("tl2", "")[:300], c["want"].hex()[:300]))
+                else:
+                    cnt["agree_tl2_read"] = cnt.get("agree_tl2_read", 0) + 1
                 continue
             cnt["tl2_alternative_encodings"] = cnt.get("tl2_alternative_encodings", 0) + 1
             if not ev.get("ok"):
